@@ -589,7 +589,11 @@ fn main() {
         // half of the cases stay inside the rollback-safe fragment so that the rest of the pipeline is
         // compared on healthy chains too
         let stale = case % 2 == 0;
-        let ops = gen_ops(&mut r, stale);
+        let mut ops = gen_ops(&mut r, stale);
+        if case == 0 {
+            // directed minimal scenario, independent of the seed: rollback of a workspace begun before a commit
+            ops = vec![Op::Begin(0), Op::Put(0, 1, 1), Op::Begin(0), Op::Commit(0), Op::Rollback(1), Op::State];
+        }
         let out = run_ws_case(&mut m, &ops, max_txs, auto_merge);
         let text = format!("{max_txs} {auto_merge} {}", ops.iter().map(show_op).collect::<Vec<_>>().join(";"));
         for h in &out.hits {
@@ -964,6 +968,11 @@ fn main() {
                 let root1 = compute_state_root(&temp).unwrap();
                 let block = c1.new_block().add_transactions(txs.iter().map(Tx::real)).with_state_root(root1).sign_and_build(&id);
                 let r1 = sm1.apply_block(&block);
+                if shared {
+                    // the graph records written beside a block carry a wall-clock `_created_at` (ms): make sure the
+                    // two replicas do not apply within the same millisecond, so the outcome does not depend on timing
+                    std::thread::sleep(std::time::Duration::from_millis(3));
+                }
                 let r2 = sm2.apply_block(&block);
                 let s1 = compute_state_root(&st1).unwrap();
                 let s2 = compute_state_root(&st2).unwrap();
